@@ -18,7 +18,8 @@ def run(tier):
     bins = vlib.build_repo_binaries(["cmd/gnmi_collector", "cmd/gnmi_cli"])
     return p_simple.run(PID, tier,
                         [("Pipeline.tla", "Pipeline_none.cfg", False), ("Pipeline.tla", "Pipeline_no_register.cfg", True),
-                         ("Pipeline.tla", "Pipeline_no_reset.cfg", True)],
+                         ("Pipeline.tla", "Pipeline_no_reset.cfg", True), ("Pipeline.tla", "Pipeline_mixed_drops_delete.cfg", True),
+                         ("Pipeline.tla", "Pipeline_refused_update_skips_deletes.cfg", True)],
                         [["pipeline", "run", "-n", str(n), "-bin", bins, "-par", str(par)]],
                         "PipelineTrace.tla", RULE % n,
                         ["targets are scripted in-process gRPC/TLS servers (the fake agent of testing/fake is covered by C20)",
